@@ -43,6 +43,10 @@ def get_file_metadata(path, hashes):
     except FileNotFoundError:
         exists = False
         opened = False
+    except ValueError:
+        # embedded NUL character -- no such path can exist
+        exists = False
+        opened = False
     except OSError as err:
         if err.errno in (errno.ENXIO, errno.EOPNOTSUPP):
             # ENXIO = unconnected device or socket
